@@ -69,7 +69,7 @@ var worlds = map[string]*worldSpec{
 		name: "laneworld", pkgs: []string{"tasklane"}, quick: 12000, thorough: 150000,
 		real: []string{"tasklane/tasklane.go (every select, counter, recover; mechanically rewritten onto simulated primitives)"},
 		stub: []string{"goroutine scheduling", "channels and select", "sync.WaitGroup", "atomic.Uint32", "time.After / clock", "context cancellation and deadlines", "task bodies (harness)"},
-		rule: "one case = one simulated run: lane/queue sizes, timeout, context fate, producers, task kinds, pinned workers, pollers and every scheduling/select decision are drawn from one seeded chooser; a run is non-trivial if it contains at least one context switch at a point where the running task could have continued, a forced pre-emption or a fired fault; distinct = distinct FNV-1a hash of the full event history",
+		rule: "one case = one simulated run: lane (1..6, one in twelve 34) / queue sizes, timeout, 1..3 concurrent Wait callers, context fate, producers, task kinds, pinned workers, pollers and every scheduling/select decision are drawn from one seeded chooser; a run is non-trivial if it contains at least one context switch at a point where the running task could have continued, a forced pre-emption or a fired fault; distinct = distinct FNV-1a hash of the full event history",
 		assume: []string{"the simulated channel/select/sync/timer/context primitives conform to the Go specification and memory model (checked by simrt's conformance suite in setup and by its race-detector self-test)",
 			"sampling, not proof: lanes<=4, queue<=3, <=3 producers x <=5 tasks, <=4 pinned workers per run"},
 	},
@@ -80,7 +80,7 @@ func init() {
 		name: "progressworld", pkgs: []string{"util/ioutil"}, quick: 16000, thorough: 150000,
 		real:   []string{"util/ioutil/progress.go (sum with select-default send, Close, Write, WriteString; channel syntax mechanically rewritten)"},
 		stub:   []string{"goroutine scheduling", "the status channel", "writer and consumer tasks (harness)", "the wrapped io.Writer / io.StringWriter (short, failing, partial writes)", "clock"},
-		rule:   "one case = one simulated run: a script of 0..8 Write/WriteString calls of sizes 0..64KiB over a fault-injecting wrapped writer, then Close, against 1..2 consumers of four temperaments, under a seeded schedule; non-trivial = at least one context switch where the running task could have continued, forced pre-emption or fired fault; distinct = distinct hash of the full event history",
+		rule:   "one case = one simulated run: a script of 0..8 Write/WriteString calls of sizes 0..64KiB (one run in eight: 64 KiB..2 GiB, the total passing 2^31 and 2^32) over a fault-injecting wrapped writer, then Close, against 1..2 consumers of four temperaments, under a seeded schedule; non-trivial = at least one context switch where the running task could have continued, forced pre-emption or fired fault; distinct = distinct hash of the full event history",
 		assume: []string{"simulated channel semantics conform to the Go specification (simrt conformance suite)", "sampling, not proof: <=8 operations, <=2 consumers per run"},
 	}
 	worlds["laneworld"].probes = map[string][]string{"*": {"select.multi_ready", "non_positive_push_timeout", "task_pushes_a_task", "push_timeout_fired", "push_ctx_error", "cancel_while_push_in_flight", "cancel_with_tasks_pending", "hol_state_with_pinned_workers", "pending_exact_nonzero", "many_lanes", "concurrent_waiters", "concurrent_recover_2plus", "headcount_checked", "clock.jump", "ctx.cancel_midrun", "ctx.deadline_fired", "ctx.cancel_before_gates",
@@ -89,7 +89,7 @@ func init() {
 	worlds["progressworld"].probes = map[string][]string{"*": {"consumer_absent_until_close", "consumer_walked_away", "consumer_late", "consumer_slow", "stringwriter_path", "total_beyond_2GiB", "write.short", "write.error_partial", "write.error_zero"}}
 	propWorld["C19"] = "progressworld"
 	worlds["filterworld"] = &worldSpec{
-		name: "filterworld", pkgs: []string{"util/netutil"}, quick: 4000, thorough: 60000,
+		name: "filterworld", pkgs: []string{"util/netutil"}, quick: 8000, thorough: 60000,
 		real:   []string{"util/netutil/filter.go (Add, Remove, Contains, list-to-map migration; sync imports shimmed, every field/element/map access instrumented in place)"},
 		stub:   []string{"goroutine scheduling", "sync.RWMutex", "atomic.Bool", "client tasks (harness)"},
 		rule:   "one case = one simulated run: a prologue that places the filter before, at or beyond the list-to-map switch (with removed slots), then a seeded history of Add/Remove/Contains/invalid-argument calls over a colliding universe of prefixes (C11: one client, model equality after every operation, 4- and 16-byte probes; C12: 1..3 writers owning disjoint ranges, 1..3 readers, pre-emption inside critical sections); non-trivial = at least one context switch where the running task could have continued, forced pre-emption or fired fault (C11 runs are sequential: non-trivial there means distinct operation history); distinct = distinct hash of the full event history",
@@ -99,21 +99,21 @@ func init() {
 		name: "logworld", pkgs: []string{"logger", "httpd", "util/netutil"}, quick: 6000, thorough: 80000,
 		real:   []string{"logger/*.go (Nano/Text/JSON handlers, Logger, buffer pool; sync and time imports shimmed, accesses instrumented)", "log/slog", "encoding/json", "strconv", "fmt", "runtime.Callers"},
 		stub:   []string{"goroutine scheduling", "sync.Mutex behind outMu", "both sync.Pools (fresh / most recent / stale object chosen by the simulator)", "clock (moves between records by 0..1h; the reference is computed at the instant the record was stamped with)", "caller tasks (harness)", "destination io.Writer (slow, short, failing)"},
-		rule:   "one case = one simulated run: handler kind, threshold, colour and source flags, a derivation tree of up to 12 loggers built before and during the run, 1..4 client tasks logging and deriving through shared nodes with generated attribute lists (all slog kinds, nested/inline groups, LogValuer, AnsiString, lines over 16 KiB), a probe record through every node at the end; every line is compared with an isolated replay of its logger's own chain; non-trivial = at least one context switch where the running task could have continued, forced pre-emption or fired fault; distinct = distinct hash of the full event history",
+		rule:   "one case = one simulated run: handler kind, threshold, colour and source flags, a derivation tree of up to 12 loggers built before and during the run, 1..4 client tasks logging and deriving through shared nodes with generated attribute lists (all slog kinds, nested/inline groups, LogValuer, AnsiString, lines over 16 KiB by attribute value and by message), a probe record through every node at the end; every line is compared with an isolated replay of its logger's own chain; non-trivial = at least one context switch where the running task could have continued, forced pre-emption or fired fault; distinct = distinct hash of the full event history",
 		assume: []string{"the reference is the same code in isolation (fresh root, fresh pool buffers, sequential): a defect that changes isolated and concurrent output identically is invisible here (that is C01/C13 territory, not applicable to this technique)", "sampling, not proof: <=12 loggers, <=4 clients x <=7 operations"},
 	}
 	worlds["httpworld"] = &worldSpec{
 		name: "httpworld", pkgs: []string{"logger", "httpd", "util/netutil"}, quick: 6000, thorough: 80000,
 		real:   []string{"httpd/*.go (Mux, trie lookup, Store, ResponseWriter)", "logger/httpd.go (Relay) and the three log handlers", "net/http request/response data types, http.Error", "log/slog, encoding/json, runtime.Stack"},
 		stub:   []string{"goroutine scheduling", "sync.Pool behind the Store pool and the log buffer pools (fresh / most recent / stale object chosen by the simulator)", "atomic request counter", "crypto/rand (ID prefix from the PRNG)", "clock", "client tasks (harness)", "http.ResponseWriter (records WriteHeader calls, first status, body; can fail Write)", "log destination"},
-		rule:   "one case = one simulated run. C05: a route table drawn from patterns with 0..4 parameters of differing names, 1..3 batches of requests (matching, partially matching then failing, unmatched, handler panicking under a recovering relay) from 1..4 concurrent clients, further routes registered between batches; every observation through Store is compared with the same request on a fresh Mux. C15: 1..6 clients with generated handler behaviours (status, body, panic point, eight panic value kinds, failing client connection) through Mux + Logger.Relay over each log handler; records are paired by request ID. Non-trivial = at least one context switch where the running task could have continued, forced pre-emption or fired fault; distinct = distinct hash of the full event history",
+		rule:   "one case = one simulated run. C05: a route table drawn from patterns with 0..4 parameters of differing names, 1..3 batches of requests (matching, partially matching then failing, unmatched, handler panicking under a recovering relay) from 1..4 concurrent clients, further routes registered between batches; every observation through Store is compared with the same request on a fresh Mux. C15: 1..6 clients with generated handler behaviours (status, body, panic point, sixteen panic value kinds (among them nil, runtime errors, typed nil errors, unhashable values), failing client connection) through Mux + Logger.Relay over each log handler; records are paired by request ID. Non-trivial = at least one context switch where the running task could have continued, forced pre-emption or fired fault; distinct = distinct hash of the full event history",
 		assume: []string{"request paths are well-formed (leading slash): what findRoute does with other strings is C04's subject", "C15 runs with colour off and URIs/tokens over [A-Za-z0-9/_-] so that the record tokenizers stay trivial and independent of C01/C13", "sampling, not proof: <=10 routes, <=4 clients x <=5 requests x <=3 batches"},
 	}
 	worlds["fsworld"] = &worldSpec{
 		name: "fsworld", pkgs: []string{"util/osutil"}, quick: 8000, thorough: 20000, enum: true, level: "fault_enumeration",
 		real:   []string{"util/osutil/file.go (CopyFile, MoveFile: control flow, defers, error handling)", "io.Copy (32 KiB loop)"},
 		stub:   []string{"the file system behind package os (simgo/shim/sos: inodes, links, symlinks, path resolution, two devices, open file descriptions, O_TRUNC at open, rename/unlink semantics) with per-call fault plans", "no concurrency in this property: the scheduler is idle"},
-		rule:   "cases = (a) every scenario of {CopyFile, MoveFile} x 8 source contents (0..1 MiB, one with an all-zero middle copy block) x {regular, missing, via symlink} x 17 destination layouts (missing, shorter, longer, same length with other bytes, same path, ./ and dir/../ spellings, symlink to source, hard link of source, directory, parent missing, parent is a file, other mount missing/existing, dangling symlink, symlink to another file, symlink on the other mount to the source), fault-free; (b) for each scenario every single-fault placement: each call of its recorded trace x each errno applicable to that primitive (writes additionally x {0, half, all-but-one} bytes written before the error) - (a) and (b) are enumerated completely; (c) seeded plans of up to three faults over random scenarios. distinct = distinct hash of (scenario, call trace with faults, result); every case is non-trivial (it runs the operation)",
+		rule:   "cases = (a) every scenario of {CopyFile, MoveFile} x 8 source contents (0..1 MiB, one with an all-zero middle copy block) x {regular, missing, via symlink} x 17 destination layouts (missing, shorter, longer, same length with other bytes, same path, ./ and dir/../ spellings, symlink to source, hard link of source, directory, parent missing, parent is a file, other mount missing/existing, dangling symlink, symlink to another file, symlink on the other mount to the source), fault-free; (b) for each scenario every single-fault placement: each call of its recorded trace x each errno applicable to that primitive (writes additionally x {0, half, all-but-one} bytes written before the error) ; (c) two-call histories in one process: every single-fault placement in an earlier CopyFile / MoveFile (4 sizes x 6 destination layouts) followed by a fault-free CopyFile or cross-mount MoveFile - (a), (b) and (c) are enumerated completely; (d) seeded histories of up to three calls (earlier calls in their own directories, three in four failed by one fault) whose last call carries a plan of up to three faults over a random scenario; every call of a history is held to the oracle, fault-free histories are also run by the unrewritten package on the real file system in a child process. distinct = distinct hash of (scenario, call trace with faults, result); every case is non-trivial (it runs the operation)",
 		assume: []string{"the simulated file system is faithful where the property looks: every fault-free scenario is also executed by the unrewritten package on the real file system (second mount: /dev/shm) and must agree in error class and resulting contents", "errors surfacing only at Close and power loss are outside the property's fault list"},
 	}
 	worlds["fsworld"].probes = map[string][]string{"*": {"traces_validated_against_real_fs", "fs.rename:EXDEV", "fs.write:ENOSPC", "fs.read:EIO", "fs.unlink:EPERM", "fs.truncate:EIO"}}
